@@ -52,6 +52,8 @@ inductive Op where
   | insertA (ov pos i : Nat)        -- ov 0 `insert(pos, v[i])` (the `T const&` overload), 2 `emplace(pos, v[i])`
   | insertFillA (pos n i : Nat)     -- `insert(pos, n, v[i])`
   | resizeValA (n i : Nat)          -- `resize(n, v[i])`
+  | tryPushA (ov i : Nat)           -- inplace_vector: ov 0 `try_push_back(c[i])`, 2 `try_emplace_back(c[i])`
+  | uncheckedA (ov i : Nat)         -- inplace_vector: ov 0 `unchecked_push_back(c[i])`, 2 `unchecked_emplace_back(c[i])`
   deriving Repr, Inhabited
 
 structure Sys where
@@ -72,6 +74,8 @@ def modPred (m r : Nat) : Nat → Bool := fun v => v % m == r
 def supports : Ty → Op → Bool
   | .sv, .tryPush .. => false
   | .sv, .unchecked .. => false
+  | .sv, .tryPushA .. => false
+  | .sv, .uncheckedA .. => false
   | .sv, _ => true
   | .stk, .push .. => true
   | .stk, .pop => true
@@ -86,6 +90,8 @@ def supports : Ty → Op → Bool
   | .stk, _ => false
   | .ipv, .tryPush .. => true
   | .ipv, .unchecked .. => true
+  | .ipv, .tryPushA .. => true
+  | .ipv, .uncheckedA .. => true
   | .ipv, .pop => true
   | .ipv, .clear => true
   | .ipv, .copyCtor _ => true
@@ -143,6 +149,8 @@ def step1Ipv (cap : Nat) (op : Op) (d : V) : Except Err (V × Out) :=
   match op with
   | .tryPush _ x => do let r ← ipvTry cap d x; .ok (r.1, .ptr r.2)
   | .unchecked _ x => do let r ← ipvUnchecked cap d x; .ok (r.1, .ref r.2)
+  | .tryPushA _ i => do let r ← ipvTryA cap d (.elem i); .ok (r.1, .ptr r.2)
+  | .uncheckedA _ i => do let r ← ipvUncheckedA cap d (.elem i); .ok (r.1, .ref r.2)
   | .pop => do let d1 ← ipvPop cap d; .ok (d1, .unit)
   | .clear => do let d1 ← ipvClear cap d; .ok (d1, .unit)
   | .dump => .ok (d, .unit)
@@ -231,6 +239,8 @@ def valid1 (cap : Nat) (op : Op) (d : V) : Bool :=
   | .insertA _ pos i => d.length < cap && pos ≤ d.length && i < d.length
   | .insertFillA pos n i => pos ≤ d.length && d.length + n ≤ cap && i < d.length
   | .resizeValA n i => n ≤ cap && i < d.length
+  | .tryPushA _ i => i < d.length
+  | .uncheckedA _ i => d.length < cap && i < d.length
   | _ => false
 
 def isBinary : Op → Option Nat
